@@ -225,7 +225,9 @@ fn gen_eval(rng: &mut Rng, img: &RefImage, pc: u16, stack: bool, classes: &mut V
         },
         18 => match rng.below(3) {
             0 => EvalCmd {
-                text: rng.s(&["add r0 #1 r0", "ld r0 r1", "ldr r0 #1 r1", "jmp #3", "not r1 alpha", "add r0 r0 \"s\"", "jsrr alpha"]).into(),
+                text: rng.s(&["add r0 #1 r0", "ld r0 r1", "ldr r0 #1 r1", "jmp #3", "not r1 alpha", "add r0 r0 \"s\"", "jsrr alpha",
+                    // (a minus sign and more than x8000 behind it: no hex literal, whatever it would wrap to)
+                    "add r0, r0, x-FFF1", "add r0 r0 x-8001", "and r1 r1 x-FFFF", "ldr r0 r1 x-FFE1", "add r0 r0 x-+4"]).into(),
                 expect: Expect::Refuse("malformed:wrong_kind"),
             },
             1 => EvalCmd {
